@@ -41,3 +41,19 @@ From KV Require Import ScanProofs.
 Theorem C01_reimport_of_canonical_note : forall n, note_ok n -> kern_recognise (str (print_note n)) = KTok (note_token n).
 Proof. exact recognise_print. Qed.
 Print Assumptions C01_reimport_of_canonical_note.
+
+(* the normal form of a single note is a fixed point: the kern export of a canonical note is its canonical text, the
+   recogniser reads that text back as the same token (no error, whole text consumed), and exporting again gives the
+   same text - for EVERY well-formed note whose signifiers are in canonical order *)
+From KV Require Import ExportFixedProofs Tokenizers.
+Theorem C01_note_fixed_point : forall n, note_ok n -> canonical_order n ->
+  exists text, kern_tokenize all_cats (note_token n) = Ok text /\
+               kern_recognise text = KTok (note_token n) /\
+               (forall t', kern_recognise text = KTok t' -> kern_tokenize all_cats t' = Ok text).
+Proof. exact note_export_fixed_point. Qed.
+Print Assumptions C01_note_fixed_point.
+
+Theorem C01_export_of_canonical_note : forall n, note_ok n -> canonical_order n ->
+  kern_tokenize all_cats (note_token n) = Ok (str (print_note n)).
+Proof. exact kern_export_canonical. Qed.
+Print Assumptions C01_export_of_canonical_note.
